@@ -58,8 +58,10 @@ def apply(name: str, par: Dict[str, Any], ops: List[Any], model: bool):
     if name == "moveaxis":
         return lib.moveaxis(a, par["source"], par["destination"])
     if name == "expand_dims":
-        return lib.expand_dims(a, par["axis"])
+        return lib.expand_dims(a, tuple(par["axis"]) if isinstance(par["axis"], list) else par["axis"])
     if name in ("atleast_1d", "atleast_2d", "atleast_3d"):
+        if par.get("multi"):
+            return list(getattr(lib, name)(*ops))
         return getattr(lib, name)(a)
     if name == "repeat":
         if par.get("axis") == "omitted":
@@ -88,9 +90,16 @@ def apply(name: str, par: Dict[str, Any], ops: List[Any], model: bool):
         return lib.where(cond, ops[0], ops[1])
     if name == "choose":
         sel = numpy.array(par["sel"])
+        kw = {"mode": par["mode"]} if par.get("mode") else {}
         if model:
-            return numpy.choose(sel, list(ops[0]) if False else ops[0])
-        return numpoly.choose(sel, ops[0])
+            return numpy.choose(sel, ops[0], **kw)
+        return numpoly.choose(sel, ops[0], **kw)
+    if name == "where1":
+        # one-argument form: indices of the non-zero polynomials
+        if model:
+            nz = numpy.array([any(bool(c != 0) for c in e.terms.values()) for e in M.flat_items(a)]).reshape(a.shape)
+            return [M.from_numeric(x) for x in numpy.where(nz)]
+        return [M.from_numeric(numpy.asarray(x)) for x in numpoly.where(a)]
     if name == "full":
         if model:
             out = numpy.empty(tuple(par["shape"]), dtype=object)
@@ -145,7 +154,7 @@ def body(ctx: H.BaseCtx):
             ctx.fail("type", "%s returned %s of length %s, expected %d pieces" % (name, type(r).__name__, len(r) if hasattr(r, "__len__") else "?", len(exp)))
         else:
             for i, (ri, ei) in enumerate(zip(r, exp)):
-                if not isinstance(ri, numpoly.ndpoly):
+                if not isinstance(ri, numpoly.ndpoly) and name != "where1":
                     ctx.fail("type", "%s piece %d is %s" % (name, i, type(ri).__name__))
                 ctx.expect_model(ri, numpy.asarray(ei, dtype=object) if not isinstance(ei, numpy.ndarray) else ei, "%s piece %d" % (name, i))
                 check_invariants(ctx, ri, "%s piece %d" % (name, i))
@@ -308,6 +317,19 @@ def gen_cases(tier: str, seed: int) -> List[Dict]:
         for fill in (True, False, None):
             cond = numpy.full(cshape, bool(fill)) if fill is not None else (numpy.arange(S.size_of(cshape)).reshape(cshape) % 2 == 1)
             add("where", [P(s1, "a", names=("q0", "q1")), P(s2, "b", names=("q1",))], {"cond": cond.tolist()}, tag="-cond%s" % ("T" if fill else "F" if fill is False else "M"))
+    # less-used argument forms
+    for f in ("atleast_1d", "atleast_2d", "atleast_3d"):
+        add(f, [P((), "a"), P((2,), "b"), P((1, 2), "c", nterms=1)], {"multi": True}, tag="-idx-multi")
+    for shape in [(2, 1, 2), (1, 2, 2)]:
+        add("moveaxis", [P(shape)], {"source": [0, 1], "destination": [-1, 0]}, tag="-idx-seq")
+        add("moveaxis", [P(shape)], {"source": [0, 2], "destination": [1, 0]}, tag="-idx-seq")
+        add("transpose", [P(shape)], {"axes": [-1, 0, -2]}, tag="-idx-neg")
+        add("expand_dims", [P(shape)], {"axis": [0, -1]}, tag="-idx-tuple")
+    add("concatenate", [P((2, 2), "a", names=("q0",)), P((1, 2), "b", names=("q1",))], {"axis": None}, tag="-idx-axisnone")
+    add("choose", [P((3,), "a")], {"sel": [0, 4, -1, 2], "mode": "wrap"}, tag="-idx-wrap")
+    add("choose", [P((3,), "a")], {"sel": [0, 4, -1, 2], "mode": "clip"}, tag="-idx-clip")
+    for shape in [(3,), (2, 2)]:
+        add("where1", [S.make_poly_spec("a", ("q0", "q1"), [[0, 0], [1, 0]], shape, rng, 3, zero_prob=0.4, literal_prob=0.1, mode="raw")], tag="-idx-onearg")
     add("choose", [P((3,), "a")], {"sel": [0, 2, 1, 0]})
     add("choose", [P((2, 2), "a")], {"sel": [1, 0]})
     add("choose", [P((3, 2), "a")], {"sel": [[0, 1], [2, 0]]})
